@@ -103,17 +103,52 @@ def check_render(run, info, n_bodies, tag):
     tokens written for the statement list of a generated function block body"""
     rng = run.rng
     texts = []
+    sxs = []
     for k in range(n_bodies):
         with gen_st.mode(reals=False, decl_typed=False):
             g = gen_st.G_(rng, depth=rng.choice([1, 2, 3]), empties=(k % 4 == 0))
             sx, lx = g.body()
         texts.append(gen_prog.render(lx, None))
+        sxs.append(sx)
     res = vlib.run_impl([{"id": i, "op": "roundtrip", "text": hexs(t)} for i, t in enumerate(texts)], run.workdir, per_case_timeout=30)
     rendered = []
     for r in res:
         rendered.append(bytes.fromhex(r["render1"]).decode("utf-8", "replace") if isinstance(r.get("render1"), str) and r.get("render1") != "err" else None)
     tok = vlib.run_impl([{"id": i, "op": "tok", "text": hexs(t or "")} for i, t in enumerate(rendered)], run.workdir, per_case_timeout=30)
     model = vlib.run_model([("strender", i, [hexs(t)]) for i, t in enumerate(texts)], run.workdir) if info.get("extract_ok") else {}
+    # the hypotheses of C10_text_round_trip, evaluated: the decidable check of the rendering holds, and parsing the TEXT the
+    # renderer model writes (lexer model, terminator insertion, parser model) gives back the statements; the text is also
+    # given to the real tokenizer, whose tokens must be the ones the model rendered
+    rt = vlib.run_model([("textrt", i, [hexs(t)]) for i, t in enumerate(texts)], run.workdir) if info.get("extract_ok") else {}
+    rt_texts = {}
+    for i, t in enumerate(texts):
+        r = rt.get(str(i))
+        if not r or r[0] != "rt":
+            continue
+        guarded = "i:-" not in sxs[i]
+        run.count(("textrt", t), True, "text-round-trip:" + tag + (":guarded" if guarded else ":negative-constant"))
+        mtxt = "".join(chr(int(c, 16)) for c in r[3].split(".") if c)
+        rt_texts[i] = mtxt
+        if guarded and (r[1] != "1" or r[2] != "1"):
+            run.violation("correspondence", "the hypotheses of C10_text_round_trip do not hold for the rendering of %r: text_ok=%s, text parsed back=%s" % (
+                t[:100], r[1], r[2]), {"input": {"text": t}, "model_text": mtxt}, no_input=True)
+    if rt_texts:
+        ids = sorted(rt_texts)
+        tk2 = vlib.run_impl([{"id": j, "op": "tok", "text": hexs(rt_texts[i])} for j, i in enumerate(ids)], run.workdir, per_case_timeout=30)
+        for j, i in enumerate(ids):
+            m = model.get(str(i))
+            if not m or m[0] != "rendered":
+                continue
+            body = _model_tokens(m[1] if len(m) > 1 else "")
+            real = _sig_tokens(tk2[j].get("tokens", []))
+            if len(real) < 3:
+                continue
+            a = [(k, x if k in KEEP else "", g) for k, x, g in real[2:-1]]
+            b = [(k, x if k in KEEP else "", g) for k, x, g in body]
+            if tk2[j].get("diags") or [x[:2] for x in a] != [x[:2] for x in b]:
+                run.cov["disagreements_checked"] += 1
+                run.violation("correspondence", "the text the renderer model writes is tokenized differently by the implementation: %r" % (rt_texts[i][:120],),
+                              {"input": {"text": rt_texts[i]}}, no_input=True)
     compared = 0
     for i, t in enumerate(texts):
         run.count(("strender", t), True, "renderer-model:" + tag)
